@@ -174,6 +174,20 @@ class Filtered:
         self.analysed = {}
         self._rules = {}
 
+    @property
+    def items(self):
+        return self.rep.items
+
+    @property
+    def rules(self):
+        return self.rep.rules
+
+    def _rule_selected(self, rule):
+        try:
+            return bool(self.pred(rule, "")) or bool(self.pred(rule, "anchor-lost:"))
+        except Exception:
+            return False
+
     def rule(self, rid, text):
         self._rules[rid] = text
 
@@ -187,7 +201,7 @@ class Filtered:
             self.rep.ok(rule, key, where, detail)
 
     def violation(self, rule, key, where="", detail=""):
-        if self.pred(rule, key) or (self.floors and key.startswith("anchor-lost:")):
+        if self.pred(rule, key) or (self.floors and key.startswith("anchor-lost:") and self._rule_selected(rule)):
             self._use(rule)
             self.rep.violation(rule, key, where, detail)
 
@@ -201,12 +215,12 @@ class Filtered:
         return cond
 
     def floor(self, rule, found, expected, what):
-        if self.floors:
+        if self.floors and self._rule_selected(rule):
             self._use(rule)
             self.rep.floor(rule, found, expected, what)
 
     def control(self, rule, fired, what):
-        if self.floors:
+        if self.floors and self._rule_selected(rule):
             self._use(rule)
             self.rep.control(rule, fired, what)
 
